@@ -152,8 +152,35 @@ def replay_tensor(chk, case):
         bad("mutation", "distribution changed by marginalize/conditionalize")
 
 
+def zero_threshold_option(chk):
+    """The constructor's `eps_zero` is the threshold below which an entry counts as zero - nothing else: the tolerance of the
+    sign check and of the sum check (1e-8, documented) does not move with it."""
+    from quara.objects.multinomial_distribution import MultinomialDistribution
+    cases = [
+        # (tensor, shape, eps_zero, expectation)
+        ([0.30, 0.20, 0.25, 0.22], (2, 2), 0.05, "raise"),          # sums to 0.97, nothing below the threshold: not a distribution
+        ([0.50, -0.02, 0.30, 0.22], (2, 2), 0.05, "raise"),         # a negative entry is not "small"
+        ([0.60, 0.03, 0.37, 0.00], (2, 2), 0.05, [0.60 / 0.97, 0.0, 0.37 / 0.97, 0.0]),   # sub-threshold entries zeroed, rest renormalised
+        ([0.5, -5e-9, 0.5 + 5e-9, 0.0], (2, 2), 1e-10, [0.5, 0.0, 0.5, 0.0]),           # rounding noise within the documented 1e-8
+        ([0.25, 0.25, 0.25, 0.25], (4,), 1e-3, [0.25, 0.25, 0.25, 0.25]),
+    ]
+    for ps, shape, ez, want in cases:
+        chk.count(1, ("eps_zero", tuple(ps), ez))
+        try:
+            md = MultinomialDistribution(np.array(ps, dtype=float), shape, eps_zero=ez)
+            got = np.asarray(md.ps, dtype=float)
+            if want == "raise":
+                chk.violation("eps_zero:accepted", "MultinomialDistribution(%s, eps_zero=%g) accepted a tensor that is not a probability distribution (stored %s)" % (ps, ez, np.round(got, 6)), dict(ps=ps, eps_zero=ez))
+            elif not np.allclose(got, want, rtol=0, atol=1e-8):
+                chk.violation("eps_zero:value", "MultinomialDistribution(%s, eps_zero=%g) stores %s, expected %s" % (ps, ez, np.round(got, 9), np.round(want, 9)), dict(ps=ps, eps_zero=ez))
+        except ValueError as e:
+            if want != "raise":
+                chk.violation("eps_zero:refused", "MultinomialDistribution(%s, eps_zero=%g) refused a valid tensor: %r" % (ps, ez, e), dict(ps=ps, eps_zero=ez))
+
+
 def run(chk):
     t = chk.tier
+    zero_threshold_option(chk)
     chk.tlc("mc/MC_C16", "mc/MC_C16_%s.cfg" % t, workers=16, label="MC_C16 " + t)
     # (a)
     ev = index_events()
